@@ -53,8 +53,15 @@ def same_value(model_val, impl_val):
     if model_val == impl_val:
         return True
     if model_val.startswith("~hsl~"):
+        # the comments of the old value follow the new one (model: value ++ comments; tool: tokens + comment tokens)
+        k = model_val.find("/*")
+        tail = model_val[k:] if k >= 0 else ""
+        if tail:
+            if not impl_val.endswith(tail):
+                return False
+            model_val, impl_val = model_val[:k], impl_val[:len(impl_val) - len(tail)]
         m = HSL_RE.match(impl_val.strip())
-        if not m:
+        if not m or m.end() != len(impl_val.strip()):
             return False
         try:
             a = [bitsf(x) for x in model_val[5:].split(",")]
